@@ -66,6 +66,44 @@ def finished_cfg(rnd, extra=0):
     return C(init, cache=rnd.choice([1, 2]), maxjobs=rnd.choice([UNL, UNL, 1]), **rnd.choice(DONE_PATTERNS))
 
 
+# restart patterns naming a status that THIS run produces: only the per-run clauses apply across processes
+#   kind (a): stat(FAILED) while jobs fail, more startable jobs than the cache;  kind (b): stat(ASSIGNED)
+def live_cfg(rnd, kind, n=None):
+    n = n or rnd.randint(2, 4)
+    if kind == "a":
+        init = rnd.choice([[AV] * n, [R("FAILED", 9, 9)] + [AV] * (n - 1)])
+        return C(init, cache=rnd.choice([1, 1, 2]), rstat=["FAILED"], fail=sorted({1, rnd.randint(1, n), rnd.randint(1, n)}))
+    init = rnd.choice([[R("ASSIGNED", 8, 0)] + [AV] * (n - 1), [R("ASSIGNED", 8, 0), R("ASSIGNED", 9, 0)] + [AV] * (n - 2)])
+    return C(init, cache=rnd.choice([1, 1, 2]), rstat=["ASSIGNED"])
+
+
+def live_kind(cfg):
+    if "ASSIGNED" in cfg["rstat"]:
+        return "b"
+    if "FAILED" in cfg["rstat"] and cfg["fail"]:
+        return "a"
+    return None
+
+
+def witnesses(trace, cfg):
+    """vacuity guard only: syncs at which the job just before the cursor of the assigning process is one that this very
+    process holds and that has a status named by the pattern (the situation in which a cursor that is not moved past the
+    last job of a full chunk would re-open it).  An assignment loop ran in a step iff nextjit_ went stale in it."""
+    n = {"a": 0, "b": 0}
+    prev = None
+    for x in trace:
+        if x["e"] == "step" and x["k"] == 0 and prev is not None:
+            p = x["p"] - 1
+            if x["s"]["next"][p] == 0 and prev["next"][p] != 0:
+                m_ = prev["meta"][p]       # cursor (1-based); the job before it, or the job it stands on if it was not moved
+                for r in prev["mem"][p][max(0, m_ - 2):m_]:
+                    if r["host"] == x["p"] and r["st"] in cfg["rstat"]:
+                        n["a" if r["st"] == "FAILED" else "b"] += 1
+        if x["e"] in ("begin", "step"):
+            prev = x["s"]
+    return n
+
+
 def restart_only(cfg):
     """no AVAILABLE job at start-up and a pattern that names at least one job (used for the vacuity guard only)"""
     return (all(r["st"] != "AVAILABLE" for r in cfg["init"]) and
@@ -76,7 +114,9 @@ def random_cfg(rnd, maxn=4):
     k = rnd.random()
     if k < 0.15:
         return finished_cfg(rnd)
-    k = (k - 0.15) / 0.85
+    if k < 0.27:
+        return live_cfg(rnd, rnd.choice("ab"), n=rnd.randint(2, min(3, maxn)))
+    k = (k - 0.27) / 0.73
     if k < 0.55:
         n = rnd.randint(1, maxn)
         return C([AV] * n, cache=rnd.choice([1, 1, 2, 3]), maxjobs=rnd.choice([UNL, UNL, 1, 2]),
@@ -326,12 +366,14 @@ def _run(ctx, exe, pool, quick, rnd):
     T0 = ctx.t0
     judge = Judge(ctx)
     guard = {"replay": 0, "random": 0, "free": 0}    # executions that start without AVAILABLE jobs but with a matching pattern
+    wit = {"a": 0, "b": 0}        # controlled executions with a sync at which the job before the cursor has the pattern's status
+    freekind = {"a": 0, "b": 0}   # free-running executions with such a pattern
 
     # ---- 1. design level: exhaustive TLC, LockMode = "exclusive" (what the code asks for) ----------------------
     if quick:
-        tlc_jobs = [("MCQuick", {}), ("MCCrashQuick", {}), ("MCP3Quick", {}), ("MCT2Quick", {})]
+        tlc_jobs = [("MCQuick", {}), ("MCCrashQuick", {}), ("MCP3Quick", {}), ("MCT2Quick", {}), ("MCP1T2", {})]
     else:
-        tlc_jobs = [("MCThorough", {}), ("MCCrashThorough", {}), ("MCP3", {}), ("MCT2", {}),
+        tlc_jobs = [("MCThorough", {}), ("MCCrashThorough", {}), ("MCP3", {}), ("MCT2", {}), ("MCP1T2", {}),
                     ("MCP3CrashSim", dict(simulate=20000, depth=400, seed=ctx.seed))]
 
     def one(job):
@@ -340,7 +382,7 @@ def _run(ctx, exe, pool, quick, rnd):
                               workers=8 if name == "MCP3" else 3, **kw)
     # the exhaustive runs take the longest and need no input from the other phases: they run in the background and
     # are collected (and required to hold) at the end
-    tlc_ex = cf.ThreadPoolExecutor(max_workers=5)
+    tlc_ex = cf.ThreadPoolExecutor(max_workers=6)
     tlc_futs = [tlc_ex.submit(one, j) for j in tlc_jobs]
 
     # ---- 2. the sharable-lock counterexample must exist in the model and must NOT be realisable on the code -----
@@ -388,11 +430,12 @@ def _run(ctx, exe, pool, quick, rnd):
     # ---- 3. replay of TLC behaviours (incl. crashes) with an exclusive lock --------------------------------------
     sims = []
     if quick:
-        plan = [("MCEmitCrash", 2, 1, {}, 45), ("MCSimQuick", 2, 1, dict(simulate=40, depth=600, seed=ctx.seed), 15)]
+        plan = [("MCEmitCrash", 2, 1, {}, 45), ("MCSimQuick", 2, 1, dict(simulate=40, depth=600, seed=ctx.seed), 15),
+                ("MCEmitP1T2", 1, 2, {}, 20)]
     else:
         plan = [("MCEmitCrash", 2, 1, {}, 1200), ("MCSim", 2, 1, dict(simulate=600, depth=600, seed=ctx.seed), 400),
                 ("MCSimP3", 3, 1, dict(simulate=300, depth=600, seed=ctx.seed), 150),
-                ("MCSimT2", 2, 2, dict(simulate=400, depth=600, seed=ctx.seed), 250)]
+                ("MCSimT2", 2, 2, dict(simulate=400, depth=600, seed=ctx.seed), 250), ("MCEmitP1T2", 1, 2, {}, 700)]
     for name, np_, nt, kw, lim in plan:
         res = vlib.tlc("jobfile", "MCJobFile", cfg=name + ".cfg", workers=4, timeout=1500, **kw)
         vlib.tlc_must_hold(res, "JobFile behaviours " + name)
@@ -416,6 +459,9 @@ def _run(ctx, exe, pool, quick, rnd):
     for (np_, nt, r), out in zip(sims, outs):
         ctx.traces += 1
         guard["replay"] += restart_only(r["c"])
+        if live_kind(r["c"]):
+            for k_, v_ in witnesses(out["trace"], r["c"]).items():
+                wit[k_] += v_ > 0
         ctx.nontriv(("replay", np_, nt, canon(r["c"]), canon(r["sched"])))
         meta = {"cfg": r["c"], "np": np_, "nt": nt, "schedule": r["sched"], "lockmode": "exclusive"}
         judge.hard(out, meta)
@@ -447,20 +493,29 @@ def _run(ctx, exe, pool, quick, rnd):
         shape = rnd.choice([(2, 1), (2, 1), (2, 1), (3, 1), (2, 2)])
         maxcr = rnd.choice([0, 0, 1, 2])
         cfg = random_cfg(rnd, 3 if shape != (2, 1) else 4)
+        policy = None
         if i < 6:       # always some crash-free restarts of a finished run: stat, host, host, both
             cfg = C(rnd.choice([DONE3, DONE2F]) if i % 4 == 0 else DONE3, cache=rnd.choice([1, 2]), **DONE_PATTERNS[i % 4])
             maxcr = 0
-        items.append((shape[0], shape[1], cfg, rnd.randrange(1 << 30), maxcr))
+        elif i < 8:     # kind (a): the last job of a full chunk fails and is reported before the same process syncs again
+            shape, cfg, maxcr, policy = (2, 1), C([AV] * 3, cache=1 + i % 2, rstat=["FAILED"], fail=[1, 2]), 0, "eager"
+        elif i < 10:    # kind (b): a worker still runs the last job of a full chunk when the other worker syncs
+            shape, cfg, maxcr, policy = (1 + i % 2, 2), C([R("ASSIGNED", 8, 0), AV, AV], cache=1, rstat=["ASSIGNED"]), 0, "lazy"
+        items.append((shape[0], shape[1], cfg, rnd.randrange(1 << 30), maxcr, policy))
 
     def rand_run(loader, base, item):
-        np_, nt, cfg, seed, maxcr = item
-        return cc.run_random(exe, loader, cfg, np_, nt, random.Random(seed), maxcrashes=maxcr, pcrash=0.04, pprobe=0.5, base=base)
+        np_, nt, cfg, seed, maxcr, policy = item
+        return cc.run_random(exe, loader, cfg, np_, nt, random.Random(seed), maxcrashes=maxcr, pcrash=0.04, pprobe=0.5, base=base,
+                             policy=policy)
     outs = pool.map(rand_run, items)
     by = {}
     ncrash = nprobe = 0
-    for (np_, nt, cfg, seed, maxcr), out in zip(items, outs):
+    for (np_, nt, cfg, seed, maxcr, policy), out in zip(items, outs):
         ctx.traces += 1
         guard["random"] += restart_only(cfg) and out["final"]["crashes"] == 0
+        if live_kind(cfg):
+            for k_, v_ in witnesses(out["trace"], cfg).items():
+                wit[k_] += v_ > 0
         sched = [[x["p"], x["t"], x["k"]] for x in out["trace"] if x["e"] == "step"]
         ctx.nontriv(("random", np_, nt, canon(cfg), canon(sched)))
         ncrash += sum(1 for x in sched if x[2] == 1)
@@ -525,8 +580,12 @@ def _run(ctx, exe, pool, quick, rnd):
         cfg = rnd.choice([C([AV] * n, cache=rnd.choice([1, 2, 3]), maxjobs=rnd.choice([UNL, UNL, 2]), fail=[j for j in range(1, n + 1) if rnd.random() < 0.15]),
                           C(OLD4 + [AV] * (n - 2), cache=rnd.choice([1, 2]), rstat=rnd.choice([[], ["FAILED"]]), rhost=rnd.choice([[], [8], [8, 9]])),
                           finished_cfg(rnd, extra=rnd.randint(0, 3))])
+        if rnd.random() < 0.15:
+            cfg = live_cfg(rnd, rnd.choice("ab"), n=n)
         if i < 4:
             cfg = C(DONE3 + [R("COMPLETE", 9, 9)] * rnd.randint(0, 3), cache=rnd.choice([1, 2]), **DONE_PATTERNS[i % 4])
+        elif i < 8:
+            cfg = live_cfg(rnd, "ab"[i % 2], n=rnd.randint(3, 6))
         items.append((np_, cfg, rnd.randrange(1 << 30)))
 
     def free(loader, base, item):
@@ -536,10 +595,12 @@ def _run(ctx, exe, pool, quick, rnd):
     for (np_, cfg, seed), out in zip(items, outs):
         ctx.traces += 1
         guard["free"] += restart_only(cfg)
+        if live_kind(cfg):
+            freekind[live_kind(cfg)] += 1
         ctx.nontriv(("free", np_, canon(cfg), seed))
         meta = {"cfg": cfg, "np": np_, "nt": 2, "seed": seed, "mode": "free"}
         if out["bad"]:
-            ctx.violation("NoAbort", "free-running processes, nobody crashed: %s" % out["bad"], meta)
+            ctx.violation(out.get("badkey") or "NoAbort", "free-running processes, nobody crashed: %s" % out["bad"], meta)
             continue
         by.setdefault(np_, []).append((out["rec"], meta))
     for np_, lst in sorted(by.items()):
@@ -559,11 +620,6 @@ def _run(ctx, exe, pool, quick, rnd):
         os.unlink(path)
     ctx.extra["free_runs"] = nfree
     ctx.extra["executions_from_finished_job_file_with_matching_restart_pattern"] = guard
-    if min(guard.values()) == 0:
-        raise vlib.InfraError("vacuity guard: no execution started from a job file without AVAILABLE jobs and with a matching "
-                              "restart pattern in %s" % [k for k, v in guard.items() if v == 0])
-    ctx.extra["infrastructure_retries"] = pool.retries
-    ctx.extra["observed_states_judged_by_predicates"] = judge.nobs
     vlib.log("phase 6 (%d free-running executions) done %.0fs" % (nfree, time.time() - T0))
 
     for f in tlc_futs:
@@ -572,6 +628,17 @@ def _run(ctx, exe, pool, quick, rnd):
         ctx.add_tlc(name, res)
     tlc_ex.shutdown()
     vlib.log("phase 1 (TLC exhaustive, exclusive lock) done %.0fs" % (time.time() - T0))
+    ctx.extra["infrastructure_retries"] = pool.retries
+    ctx.extra["observed_states_judged_by_predicates"] = judge.nobs
+    ctx.extra["restart_pattern_names_a_status_of_this_run"] = {"controlled_runs_with_witness_sync": wit, "free_runs": freekind}
+    ctx.extra["executions_from_finished_job_file_with_matching_restart_pattern"] = guard
+    if not ctx.violations and not ctx.known_hit:      # a vacuity complaint must never hide a verdict
+        if min(wit.values()) == 0 or min(freekind.values()) == 0:
+            raise vlib.InfraError("vacuity guard: no execution in which the job before the cursor has the restart pattern's status "
+                                  "at a sync (stat(FAILED) with failing jobs / stat(ASSIGNED)): %s %s" % (wit, freekind))
+        if min(guard.values()) == 0:
+            raise vlib.InfraError("vacuity guard: no execution started from a job file without AVAILABLE jobs and with a matching "
+                                  "restart pattern in %s" % [k for k, v in guard.items() if v == 0])
     ctx.exhaustive = False
 
 
@@ -660,7 +727,7 @@ def free_run(exe, loader, base, np_, cfg, seed):
                     "--restart", cc.restart_pattern(cfg), "--fail", ",".join(str(x) for x in cfg["fail"]),
                     "--sleep-us", "400", "--seed", str(seed + p)]
             procs.append(subprocess.Popen(args, env=env, stdout=subprocess.PIPE, stderr=subprocess.PIPE, text=True, cwd=d))
-        execlog, started, bad = [], [], None
+        execlog, started, bad, badkey = [], [], None, None
         for p, pr in enumerate(procs, 1):
             try:
                 o, e = pr.communicate(timeout=120)
@@ -671,7 +738,10 @@ def free_run(exe, loader, base, np_, cfg, seed):
             mine = [int(m) for m in re.findall(r"^exec (\d+)$", o, re.M)]
             execlog += [[p, j] for j in mine]
             started.append(len(mine))
-            if pr.returncode != 0 or not re.search(r"^finished$", o, re.M):
+            if pr.returncode == 4 and re.search(r"^reexec (\d+)$", o, re.M):
+                bad, badkey = "process %d was handed job %s three times in one run" % (p, re.search(r"^reexec (\d+)$", o, re.M).group(1)), \
+                    "AtMostOncePerRun"
+            elif pr.returncode != 0 or not re.search(r"^finished$", o, re.M):
                 ab = re.search(r"^aborted (.*)$", o, re.M)
                 bad = bad or "process %d ended with rc=%s (%s)" % (p, pr.returncode, ab.group(1) if ab else e[-200:])
         pid2alias = {pr.pid: p for p, pr in enumerate(procs, 1)}
@@ -691,7 +761,7 @@ def free_run(exe, loader, base, np_, cfg, seed):
                 return {"ok": False, "jobs": []}            # wrong ids: not a job list
             return {"ok": True, "jobs": jobs}
         rec = {"c": cfg, "file": dig(jobfile), "backup": dig(jobfile + "~"), "execLog": execlog, "started": started}
-        return {"bad": bad, "rec": rec}
+        return {"bad": bad, "badkey": badkey, "rec": rec}
     finally:
         shutil.rmtree(d, ignore_errors=True)
 
